@@ -12,6 +12,7 @@
                       file set, or raises URLError when partitioned.
 """
 import datetime as _dt
+import time as _time
 import io
 import os
 import json
@@ -21,8 +22,34 @@ from urllib.error import URLError
 
 
 class FakeTimeModule:
-    def __init__(self, sim):
+    """Stands in for the `time` module a library module imported.  `tz_west` is the simulated local time zone in
+    seconds WEST of UTC (time.timezone); the host's real zone never shows through."""
+
+    def __init__(self, sim, tz_west=0):
         self._sim = sim
+        self.timezone = int(tz_west)
+        self.altzone = int(tz_west)
+        self.daylight = 0
+        self.tzname = ("SIM", "SIM")
+
+    def gmtime(self, secs=None):
+        return _time.gmtime(self.time() if secs is None else secs)
+
+    def localtime(self, secs=None):
+        return _time.gmtime((self.time() if secs is None else secs) - self.timezone)
+
+    def mktime(self, t):
+        import calendar
+        return float(calendar.timegm(t) + self.timezone)
+
+    def strftime(self, fmt, t=None):
+        return _time.strftime(fmt, self.localtime() if t is None else t)
+
+    def ctime(self, secs=None):
+        return _time.asctime(self.localtime(secs))
+
+    def time_ns(self):
+        return int(self.time() * 1e9)
 
     def time(self):
         t = self._sim.time()
